@@ -432,17 +432,25 @@ func runWalk(c *Ctx) {
 			c.R.Undecided("SIBLING", "Value.vertex", "Value.vertex", "-", "method not found")
 		} else {
 			a := vertexLiterals(c, vm)
-			b := vertexLiterals(c, fb)
-			// if the builder delegates to vertex(), the obligation is trivially discharged
+			b := map[string]string{}
+			// if the builder (or one of its private steps) delegates to vertex(), the obligation is trivially discharged
+			// for every kind it does not also build itself
 			delegates := false
-			for _, ci := range core.Calls(fb) {
-				if ci.Common().StaticCallee() == vm {
-					delegates = true
+			for _, g := range p.Region(fb) {
+				for k, v := range vertexLiterals(c, g) {
+					if g != vm {
+						b[k] = v
+					}
+				}
+				for _, ci := range core.Calls(g) {
+					if ci.Common().StaticCallee() == vm {
+						delegates = true
+					}
 				}
 			}
 			for _, k := range []string{kinds.Value, kinds.Arg} {
 				la, lb := a[k], b[k]
-				okk := delegates || (la != "" && la == lb)
+				okk := (delegates && lb == "") || (la != "" && la == lb)
 				c.R.Add("SIBLING", "input-vertex|"+k, "funcBuilder / Value.vertex", p.Pos(vm.Pos()), okk,
 					"the vertex under which the resolver stores an argument (func builder) and the vertex under which the executor looks it up (Value.vertex) are built with the same label mapping",
 					ternary(delegates, "func builder delegates to Value.vertex", fmt.Sprintf("Value.vertex: {%s}  func builder: {%s}", la, lb)))
